@@ -19,21 +19,22 @@ pub fn read_files_in_folder(
 ) -> LocationFreeDiagnosticResult<Vec<(RelativePathToSourceFile, String)>> {
     read_dir_recursive(folder)?
         .into_iter()
-        .filter(|p| {
-            let extension = p.extension().and_then(|x| x.to_str());
-
-            matches!(
-                extension,
-                Some("ts") | Some("tsx") | Some("js") | Some("jsx")
-            )
-        })
-        .filter(|p| {
-            !p.to_str()
-                .expect("Expected path to be stringable")
-                .contains("__isograph")
-        })
+        .filter(|p| is_source_file_path(p))
         .map(|path| read_file(path, current_working_directory))
         .collect()
+}
+
+/// Whether a file at this path is read for iso literals
+pub fn is_source_file_path(path: &Path) -> bool {
+    let extension = path.extension().and_then(|x| x.to_str());
+
+    matches!(
+        extension,
+        Some("ts") | Some("tsx") | Some("js") | Some("jsx")
+    ) && !path
+        .to_str()
+        .expect("Expected path to be stringable")
+        .contains("__isograph")
 }
 
 pub fn read_file(
